@@ -15,6 +15,14 @@ from .symex import (
 )
 
 
+def base_hint(h):
+    """'dict|none' -> 'dict' (the operation at hand already excludes None)"""
+    if not h:
+        return ""
+    alts = [x for x in h.split("|") if x.strip() != "none"]
+    return alts[0].strip() if len(alts) == 1 else ""
+
+
 class ObjDict:
     """obj.__dict__ view"""
 
@@ -226,6 +234,16 @@ class ExprMixin:
         if isinstance(op, (ast.NotEq, ast.IsNot)):
             return z3.Not(self.val_eq(a, b))
         if isinstance(op, (ast.Lt, ast.LtE, ast.Gt, ast.GtE)):
+            ia, ib = self.concrete_items(a), self.concrete_items(b)
+            if ia is not None and ib is not None and (a.k == "py" or self.tag(a) in ("cons", "nil")):
+                # tuples compare lexicographically
+                strict = {ast.Lt: ast.Lt, ast.LtE: ast.Lt, ast.Gt: ast.Gt, ast.GtE: ast.Gt}[type(op)]()
+                res = z3.BoolVal(isinstance(op, (ast.LtE, ast.GtE)) and len(ia) == len(ib)
+                                 or (isinstance(op, (ast.Lt, ast.LtE)) and len(ia) < len(ib))
+                                 or (isinstance(op, (ast.Gt, ast.GtE)) and len(ia) > len(ib)))
+                for x, y in reversed(list(zip(ia, ib))):
+                    res = z3.Or(self.compare(strict, x, y, n), z3.And(self.val_eq(x, y), res))
+                return res
             ta, tb = self.tag(a), self.tag(b)
             if ta == "str" or tb == "str":
                 x, y = self.as_str(a), self.as_str(b)
@@ -256,7 +274,7 @@ class ExprMixin:
             if not items:
                 return z3.BoolVal(False)
             return z3.Or(*[self.val_eq(x, item) for x in items])
-        h = cont.hint or ""
+        h = base_hint(cont.hint)
         if h in ("dict", "set"):
             return self.dict_has(self.as_addr(cont), self.to_val(item))
         if h == "list":
@@ -270,6 +288,14 @@ class ExprMixin:
     def user_contains(self, cont, item, n):
         return None
 
+    def row_const(self, a, field="lelem"):
+        """a fresh constant equal to the current row of list/dict `a` (rows that
+        are ite/store terms cannot be used in quantifier patterns)"""
+        r = z3.Select(self.heap.cur[field], a)
+        c = core.fresh("row", r.sort())
+        self.assume(c == r)
+        return c
+
     def list_contains(self, lst, item):
         """membership in a symbolic list: a fresh Bool with a witness index for
         the positive case and a quantified fact for the negative case."""
@@ -280,7 +306,7 @@ class ExprMixin:
         ln = self.hread("llen", (a,))
         self.assume(z3.Implies(b, z3.And(0 <= w, w < ln, self.hread("lelem", (a, w)) == v)))
         j = core.fresh("j", core.IntS)
-        row = z3.Select(self.heap.cur["lelem"], a)
+        row = self.row_const(a)
         self.assume(z3.Implies(z3.Not(b), z3.ForAll([j], z3.Implies(z3.And(0 <= j, j < ln),
                     z3.Select(row, j) != v), patterns=[z3.Select(row, j)])))
         return b
@@ -309,7 +335,7 @@ class ExprMixin:
             raise Unsupported(f"attribute {name} of {o!r}")
         if obj.k == "str" or self.tag(obj) == "str":
             return py(BoundBuiltin(obj, "str", name), "builtin")
-        h = obj.hint or ""
+        h = base_hint(obj.hint)
         if h in ("list", "dict", "set"):
             return py(BoundBuiltin(obj, h, name), "builtin")
         if name == "__class__":
@@ -481,7 +507,9 @@ class ExprMixin:
             i = self.norm_index(self.as_int(idx), z3.Length(s))
             self.require(z3.And(i >= 0, i < z3.Length(s)), "IndexError", "string index")
             return TV("str", z3.simplify(z3.SubString(s, i, 1)))
-        if tg in ("cons", "nil") or obj.hint == "tuple":
+        if tg in ("cons", "nil") or obj.hint == "tuple" or (
+                self.in_spec and tg is None and not obj.hint and idx.k == "int"
+                and z3.is_int_value(z3.simplify(idx.r)) and z3.simplify(idx.r).as_long() >= 0):
             items = self.concrete_items(obj)
             i = z3.simplify(self.as_int(idx))
             if items is not None and z3.is_int_value(i):
@@ -499,7 +527,7 @@ class ExprMixin:
                 self.closed(v)
                 return self.from_val(v)
             raise Unsupported("symbolic tuple index")
-        h = obj.hint or ""
+        h = base_hint(obj.hint)
         if h == "list":
             a = self.as_addr(obj)
             ln = self.hread("llen", (a,))
@@ -590,7 +618,7 @@ class ExprMixin:
         e = norm(hi, ln)
         b = self.alloc("list")
         newlen = z3.If(e > s, e - s, 0)
-        srcrow = z3.Select(self.heap.cur["lelem"], a)
+        srcrow = self.row_const(a)
         row = core.fresh("slice_row", z3.ArraySort(core.IntS, Val))
         j = core.fresh("j", core.IntS)
         self.heap = self.heap.store("llen", (b,), newlen)
@@ -606,8 +634,8 @@ class ExprMixin:
         a, b = self.as_addr(x), self.as_addr(y)
         la, lb = self.hread("llen", (a,)), self.hread("llen", (b,))
         c = self.alloc("list")
-        ra = z3.Select(self.heap.cur["lelem"], a)
-        rb = z3.Select(self.heap.cur["lelem"], b)
+        ra = self.row_const(a)
+        rb = self.row_const(b)
         row = core.fresh("cat_row", z3.ArraySort(core.IntS, Val))
         j = core.fresh("j", core.IntS)
         self.heap = self.heap.store("llen", (c,), la + lb)
@@ -623,7 +651,7 @@ class ExprMixin:
             self.heap = self.heap.store("fld", (obj.r.addr, nm), self.to_val(v)).store(
                 "has", (obj.r.addr, nm), z3.BoolVal(True))
             return
-        h = obj.hint or ""
+        h = base_hint(obj.hint)
         if h == "list":
             a = self.as_addr(obj)
             ln = self.hread("llen", (a,))
@@ -646,7 +674,7 @@ class ExprMixin:
         raise Unsupported(f"item store on value without hint ({h!r})")
 
     def del_item(self, obj, idx):
-        h = obj.hint or ""
+        h = base_hint(obj.hint)
         if h == "dict":
             a = self.as_addr(obj)
             kv = self.to_val(idx)
